@@ -248,7 +248,9 @@ def malform(rng, case, kind=None):
     elif kind == "label-range":
         i = lower["label"]
         cells = [(1 if x else -1) if isinstance(x, bool) else x for x in cols[i][1]]
-        cells[rng.randrange(nrows)] = rng.choice([2, -2, 3, 7, -5])
+        # incl. values that are congruent to a legal label modulo 2^8 / 2^16 / 2^32 (narrow integer casts wrap)
+        cells[rng.randrange(nrows)] = rng.choice([2, -2, 3, 7, -5, 255, 256, 257, -255, -257, 513, 65535, 65537,
+                                                   4294967297, -4294967295])
         cols[i][1] = cells
     elif kind == "dup-optional":
         q = rng.choice(OPTIONAL + ["charge_column"])
